@@ -105,6 +105,15 @@ var c07Ctx = []struct{ name, tmpl, prelude string }{
 	// with-open-file — the stream is kept in a global so that it can be probed after the form was left
 	{"with-open-file.body", "(with-open-file (vs \"/dev/null\") (setq vgf# vs) (vtr (vopen vs)) @ (vtr 91))", ""},
 	{"with-open-file.last", "(with-open-file (vs \"/dev/null\") (setq vgf# vs) (vtr 90) @)", ""},
+	// the same two positions with the other states the stream can be in when the body is left: closed by the body
+	// itself (once / twice: closing a closed stream is a no-op), opened with :direction :probe (bound closed). The
+	// close that with-open-file performs on the way out must not change the outcome in any of them. (Same cell
+	// names: the stream state is a second dimension of the cell, not a new intervening form.)
+	{"with-open-file.body", "(with-open-file (vs \"/dev/null\") (setq vgf# vs) (vtr (close vs)) (vtr (vopen vs)) @ (vtr 91))", ""},
+	{"with-open-file.last", "(with-open-file (vs \"/dev/null\") (setq vgf# vs) (vtr (close vs)) (vtr (close vs)) @)", ""},
+	{"with-open-file.body", "(with-open-file (vs \"/dev/null\" :direction :probe) (setq vgf# vs) (vtr (vopen vs)) @ (vtr 91))", ""},
+	{"with-open-file.last", "(with-open-file (vs \"/dev/null\" :direction :probe) (setq vgf# vs) (vtr (close vs)) @)", ""},
+	{"with-open-file.last", "(with-open-file (vs \"/dev/null\" :direction :output :if-exists :append) (setq vgf# vs) (vtr (close vs)) @)", ""},
 }
 
 // c07Post: a last top-level form appended to the programs of a context (probes of what the form must have released)
@@ -198,6 +207,18 @@ var c07Extra = []struct{ name, exit, prog string }{
 	{"with-open-file.variable-scope", "normal", "(let ((vs 7)) (with-open-file (vs \"/dev/null\") (vtr (vopen vs))) (vtr vs))"},
 	{"with-open-file.options-evaluated-in-order", "normal", "(with-open-file (vs (vtr \"/dev/null\") (vtr :direction) (vtr :input)) (vtr (vopen vs)))"},
 	{"with-open-file.multiple-values-of-body", "normal", "(multiple-value-list (with-open-file (vs \"/dev/null\") (values (vtr 1) (vtr 2))))"},
+	// the body closed the stream (or it was a probe): every condition class surfaces unchanged, through enclosing
+	// cleanups, ignore-errors and recover; the value of a normally left body is the value of the form
+	{"with-open-file.closed-in-body.class", "err-type", "(with-open-file (vs \"/dev/null\") (vtr (close vs)) (/ (vtr 1) 0))"},
+	{"with-open-file.closed-in-body.class", "err-type", "(with-open-file (vs \"/dev/null\") (vtr (close vs)) (vtr vunboundvar))"},
+	{"with-open-file.closed-in-body.class", "err-type", "(with-open-file (vs \"/dev/null\") (vtr (close vs)) (vundefinedfn))"},
+	{"with-open-file.closed-in-body.class", "err-error", "(with-open-file (vs \"/dev/null\" :direction :probe) (vtr (vopen vs)) (error \"boom\"))"},
+	{"with-open-file.closed-in-body.unwound", "err-type", "(unwind-protect (with-open-file (vs \"/dev/null\") (setq vgf# vs) (unwind-protect (progn (vtr (close vs)) (/ (vtr 1) 0)) (vtr 2))) (vtr (vopen vgf#)))"},
+	{"with-open-file.closed-in-body.recovered", "err-type", "(recover vr (vtr 3) (with-open-file (vs \"/dev/null\") (vtr (close vs)) (car (vtr 5))))"},
+	{"with-open-file.closed-in-body.caught", "err-caught", "(multiple-value-list (ignore-errors (with-open-file (vs \"/dev/null\" :direction :probe) (/ (vtr 1) 0))))"},
+	{"with-open-file.closed-in-body.nested", "err-type", "(with-open-file (vs \"/dev/null\") (setq vgf# vs) (with-open-file (vt \"/dev/null\") (vtr (close vt)) (vtr (list (vopen vs) (vopen vt))) (car (vtr 5))))"},
+	{"with-open-file.closed-in-body.value", "normal", "(vtr (with-open-file (vs \"/dev/null\") (vtr (close vs)) (vtr (close vs)) (vtr 7))) (vtr (with-open-file (vs \"/dev/null\" :direction :probe) (vtr (vopen vs)) 8))"},
+	{"with-open-file.closed-in-body.closure", "err-type", "(with-open-file (vs \"/dev/null\") (funcall (lambda () (vtr (close vs)))) (dolist (vx (quote (1))) (car (vtr vx))))"},
 	{"error.class.division-by-zero", "err-type", "(vtr 1) (/ (vtr 1) 0)"},
 	{"error.class.unbound-variable", "err-type", "(vtr 1) (vtr vunboundvar)"},
 	{"error.class.undefined-function", "err-type", "(vtr 1) (vundefinedfn)"},
